@@ -114,6 +114,16 @@ def check(ctx):
     ctx.check(ok2, "R14.2", "TokenBuffer::add|gap-before-token",
               "on the `last_token_location < start` edge the gap token is pushed before the token itself",
               "the gap token is not pushed (before the token) exactly when there is a gap", where(add))
+    # the gap test is the *only* condition of the gap token (no "a token was seen before" side condition: unmatched text at the
+    # very start of the input is a gap too)
+    if gap_push:
+        cdeps = control_dependence_no_errors(add)
+        others = sorted({a for a, _s, _k in transitive_control_deps(add, gap_push[0].bb, cd=cdeps) if a != d})
+        ctx.check(not others, "R14.2", "TokenBuffer::add|gap-test-unconditional",
+                  "the gap token depends on the comparison last_token_location < start alone",
+                  "the gap token additionally depends on the branch(es) at line(s) %s: a gap that does not satisfy that side "
+                  "condition (e.g. unmatched text before the first token) is dropped from the token sequence and the tree"
+                  % [add.line_of_block(a) for a in others], where(add, gap_push[0].line))
     # the token itself is pushed on every path
     pd = cfg.PostDom(add)
     ctx.check(bool(tok_push) and pd.postdominates(tok_push[0].bb, 0), "R14.2", "TokenBuffer::add|token-always-buffered",
@@ -144,7 +154,14 @@ def check(ctx):
     upd = False
     for bi, line in lw:
         st = [s for s in add.stmts(bi) if s[0] == "a" and isinstance(s[1][-1], list) and s[1][-1][2] == "last_token_location"]
-        src = raw_operand_place(add, st[0][2][1]) if st and st[0][2][0] == "use" else None
+        rvx = st[0][2] if st else None
+        if rvx and rvx[0] == "agg" and rvx[3] == "Some" and rvx[4]:
+            rvx = ["use", rvx[4][0]]          # Some(token.location.end): an Option-typed tracker is the same update
+        src = raw_operand_place(add, rvx[1]) if rvx and rvx[0] == "use" else None
+        if src and len(src) == 1:
+            sd = single_def(add, src[0])
+            if sd and sd[0] == "assign" and sd[3][0] == "agg" and sd[3][3] == "Some" and sd[3][4]:
+                src = raw_operand_place(add, sd[3][4][0])
         names = [e[2] for e in src[1:] if isinstance(e, list) and e[0] == "f"] if src else []
         if names[-2:] == ["location", "end"] and pd.postdominates(bi, 0):
             upd = True
